@@ -156,6 +156,274 @@ def gen_host(rng, prog, faults):
     return acts
 
 
+
+# ---- stream R: Promise.race over host promises (Host/Race.v) ---------------------
+def race_prog(entries):
+    """entries: 'L' order answered with an order-linked host promise, 'U' order answered with a plain
+    host promise, 'N' a script promise that never settles, ('D', j) the promise of entry j again"""
+    lines = ['import { order } from "tsrun:host";', "const never = () => new Promise(() => {});"]
+    oid, ids, linked = 0, [], []
+    for i, e in enumerate(entries):
+        if e in ("L", "U"):
+            oid += 1
+            ids.append(oid)
+            linked.append(oid if e == "L" else None)
+            lines.append("const e%d = order(%d);" % (i, oid))
+        elif e == "N":
+            ids.append(None)
+            linked.append(None)
+            lines.append("const e%d = never();" % i)
+        else:
+            ids.append(ids[e[1]])
+            linked.append(linked[e[1]])
+            lines.append("const e%d = e%d;" % (i, e[1]))
+    lines.append('let w; try { w = "ok:" + await Promise.race([%s]); } catch (x) { w = "rej:" + x; }'
+                 % ", ".join("e%d" % i for i in range(len(entries))))
+    lines.append("const t = await order(99);")
+    lines.append('w + "/" + t')
+    return "\n".join(lines), ids, linked, oid
+
+
+def race_host(entries, n, winner_order, reject):
+    acts, k = [], 0
+    for e in entries:
+        if e in ("L", "U"):
+            k += 1
+            acts.append({"fulfil": [[k, {"promise": k, "linked": e == "L"}]]})
+            acts.append({"step": 1})
+    acts.append({"reject" if reject else "resolve": [winner_order, "a%d" % winner_order]})
+    acts.append({"step": 1})
+    acts.append({"fulfil": [[n + 1, {"ok": "tail"}]]})
+    acts.append({"step": 1})
+    acts.append({"step": 1})
+    return acts
+
+
+def gen_race(rng):
+    n = 1 + rng.below(5)
+    entries = []
+    for i in range(n):
+        r = rng.below(10)
+        if r < 4:
+            entries.append("L")
+        elif r < 6:
+            entries.append("U")
+        elif r < 8 or not entries:
+            entries.append("N")
+        else:
+            entries.append(("D", rng.below(len(entries))))
+    if not any(e in ("L", "U") for e in entries):
+        entries[rng.below(n)] = "L"
+    orders = sum(1 for e in entries if e in ("L", "U"))
+    return entries, 1 + rng.below(orders), rng.below(4) == 0
+
+
+def race_stream(chk, rng, stats):
+    corpus = [(["L", "L"], 1, False), (["N", "L", "L"], 1, False), (["N", "L", "L"], 2, False), (["L", ("D", 0)], 1, False),
+              (["L", ("D", 0), ("D", 0)], 1, False), (["L", "L", ("D", 1), ("D", 1)], 1, False), (["L", "U", "L"], 2, False),
+              (["L", "U", "L"], 3, True), (["U", "N", "L", "L"], 1, True), (["N", "N", "L"], 1, False)]
+    cases = list(corpus)
+    if chk.replay:
+        r = json.load(open(chk.replay))
+        cases = [([tuple(e) if isinstance(e, list) else e for e in r["race_entries"]], r["winner_order"], r["rejected"])]
+    else:
+        for _ in range(150 if chk.tier == "quick" else 3000):
+            cases.append(gen_race(rng))
+    d = os.path.join(common.OUT, PID)
+    os.makedirs(d, exist_ok=True)
+    rf, of = os.path.join(d, "race_req.jsonl"), os.path.join(d, "race_res.jsonl")
+    meta = []
+    with open(rf, "w") as f:
+        for ent, w, rej in cases:
+            src, ids, linked, n = race_prog(ent)
+            meta.append((src, ids, linked, n))
+            f.write(json.dumps({"program": src, "host": race_host(ent, n, w, rej)}) + "\n")
+    rc, out = common.sh([chk.th, "orders", rf, of], timeout=1800)
+    if rc != 0:
+        chk.violation({"what": "orders harness died on the race stream rc=%s" % rc, "tail": out[-300:]})
+        return
+    impl = [json.loads(l) for l in open(of) if l.strip()]
+    os.remove(rf)
+    os.remove(of)
+    # the model, evaluated inside Coq
+    def coq_ids(linked):
+        return "[" + "; ".join("None" if x is None else "Some %d" % x for x in linked) + "]%N"
+    rows = []
+    for (ent, w, rej), (src, ids, linked, n) in zip(cases, meta):
+        widx = ids.index(w)
+        rows.append("render_ids (race_cancelled %s %d %s)" % (coq_ids(linked), widx, "true" if rej else "false"))
+    body = ["From Coq Require Import String NArith List.", "From TsrunV Require Import Host.Race Base.Render.", "Import ListNotations.",
+            "Local Open Scope string_scope.",
+            "Definition render_ids (l : list N) : string := String.concat \",\" (map string_of_N l).",
+            "Eval vm_compute in (lines [%s])." % ";\n ".join(rows)]
+    got, raw = common.run_cases_v("c08_race", "\n".join(body), timeout=600)
+    if got is None:
+        chk.proof_breaks.append("Host.Race cases do not evaluate: " + raw[-400:])
+        return
+    for (ent, w, rej), (src, ids, linked, n), res, m in zip(cases, meta, impl, got):
+        stats["race_cases"] = stats.get("race_cases", 0) + 1
+        tr = res.get("trace", [])
+        cancelled = [c for t in tr for c in t.get("cancelled", [])]
+        final = [t for t in tr if t.get("r") == "complete"]
+        expect_val = "%s:a%d/tail" % ("rej" if rej else "ok", w)
+        want = [int(x) for x in m.split(",") if x]
+        issued = set(x for x in ids if x is not None)
+        bad = None
+        if len(set(cancelled)) != len(cancelled):
+            bad = "a cancellation reached the host more than once: %s" % cancelled
+        elif any(c not in issued for c in cancelled):
+            bad = "a cancellation names an order the race does not contain: %s" % cancelled
+        elif not final or final[0].get("json") != expect_val:
+            bad = "the race did not produce %s: %s" % (expect_val, [t.get("r") for t in tr])
+        elif sorted(cancelled) != sorted(want):
+            bad = "cancellations %s, the losers of the race are %s" % (cancelled, want)
+        if bad:
+            stats["disagreements"] += 1
+            if len(chk.violations) < 6:
+                chk.violation({"race_entries": ent, "winner_order": w, "rejected": rej, "program": src,
+                               "linked_order_ids_by_position": linked, "cancelled_reported": cancelled,
+                               "model_race_cancelled": want, "what": bad})
+        elif cancelled != want:
+            stats["disagreements"] += 1
+            chk.proof_breaks.append("correspondence Host.Race vs handle_promise_race_settle (order of the list) on %s winner %d: impl %s model %s"
+                                    % (ent, w, cancelled, want))
+
+
+# ---- stream E: error / value delivery through async wrappers; combinators over host promises ----
+E_WRAP = {
+    "direct": ("", "order(1)"),
+    "async-fn": ("async function f() { return await order(1); }\n", "f()"),
+    "async-fn-noawait": ("async function f() { return order(1); }\n", "f()"),
+    "async-arrow": ("const f = async () => { const v = await order(1); return v; };\n", "f()"),
+    "two-levels": ("async function g() { return await order(1); }\nasync function f() { const v = await g(); return v; }\n", "f()"),
+    "method": ("class K { async m() { return await order(1); } }\n", "new K().m()"),
+    "after-work": ("async function f() { let t = 0; for (let i = 0; i < 3; i++) { t += i; } const v = await order(1); return v; }\n", "f()"),
+    "in-finally-fn": ("async function f() { try { return await order(1); } finally { log.push('fin'); } }\n", "f()"),
+}
+E_CATCH = {
+    "try-await": "let r; try { r = 'ok:' + await %s; } catch (e) { r = 'caught:' + e; }\nr",
+    "then-two": "await %s.then((v: any) => 'ok:' + v, (e: any) => 'caught:' + e)",
+    "catch-method": "await %s.then((v: any) => 'ok:' + v).catch((e: any) => 'caught:' + e)",
+    "all": "let r; try { r = 'ok:' + (await Promise.all([%s]))[0]; } catch (e) { r = 'caught:' + e; }\nr",
+    "race": "let r; try { r = 'ok:' + await Promise.race([%s]); } catch (e) { r = 'caught:' + e; }\nr",
+    "try-in-async": "async function outer() { try { return 'ok:' + await %s; } catch (e) { return 'caught:' + e; } }\nawait outer()",
+}
+E_HDR = 'import { order } from "tsrun:host";\nconst log: string[] = [];\n'
+
+
+def settle_expect(comb, outcomes, order_of_settling):
+    """ECMAScript's combinators over promises that settle in the given order; outcomes[i] = (ok, value)"""
+    n = len(outcomes)
+    done = []
+    for k in order_of_settling:
+        done.append(k)
+        okv = [outcomes[i] for i in done]
+        if comb == "all":
+            if not outcomes[k][0]:
+                return "caught:" + outcomes[k][1]
+            if len(done) == n:
+                return "ok:" + ",".join(outcomes[i][1] for i in range(n))
+        elif comb == "race":
+            return ("ok:" if outcomes[k][0] else "caught:") + outcomes[k][1]
+        elif comb == "any":
+            if outcomes[k][0]:
+                return "ok:" + outcomes[k][1]
+            if len(done) == n:
+                return "caught:AggregateError"
+        elif comb == "allSettled":
+            if len(done) == n:
+                return "ok:" + ",".join(("fulfilled:" if outcomes[i][0] else "rejected:") + outcomes[i][1] for i in range(n))
+    return None
+
+
+def comb_prog(comb, n):
+    lines = [E_HDR] + ["const p%d = order(%d);" % (i, i + 1) for i in range(n)]
+    arr = ", ".join("p%d" % i for i in range(n))
+    if comb == "allSettled":
+        lines.append("const rs = await Promise.allSettled([%s]);" % arr)
+        lines.append("'ok:' + rs.map((x: any) => x.status + ':' + (x.status === 'fulfilled' ? x.value : x.reason)).join()")
+    elif comb == "any":
+        lines.append("let r; try { r = 'ok:' + await Promise.any([%s]); } catch (e: any) { r = 'caught:' + (e && e.name === 'AggregateError' ? 'AggregateError' : e); }" % arr)
+        lines.append("r")
+    elif comb == "all":
+        lines.append("let r; try { r = 'ok:' + (await Promise.all([%s])).join(); } catch (e) { r = 'caught:' + e; }" % arr)
+        lines.append("r")
+    else:
+        lines.append("let r; try { r = 'ok:' + await Promise.race([%s]); } catch (e) { r = 'caught:' + e; }" % arr)
+        lines.append("r")
+    return "\n".join(lines)
+
+
+def delivery_stream(chk, rng, stats, known_hit):
+    cases = []      # (kind, descr, program, host, expectation predicate text)
+    for wn, (pre, call) in E_WRAP.items():
+        for cn, tmpl in E_CATCH.items():
+            if wn == "direct" and cn in ("then-two", "catch-method"):
+                continue        # order() evaluates to the response itself, not to a promise
+            for fault in (False, True):
+                src = E_HDR + pre + (tmpl % call)
+                host = [{"fulfil": [[1, {"err": "boom"} if fault else {"ok": 7}]]}, {"step": 1}, {"step": 1}]
+                cases.append(("delivery", {"wrapper": wn, "catcher": cn, "error_response": fault}, src, host,
+                              ("caught:", "boom") if fault else ("ok:7",)))
+    combos = []
+    for comb in ("all", "race", "any", "allSettled"):
+        for n in (1, 2, 3):
+            for _ in range(4 if chk.tier == "quick" else 30):
+                outcomes = [(rng.below(3) != 0, "v%d" % (i + 1)) for i in range(n)]
+                perm = list(range(n))
+                for i in range(n - 1, 0, -1):
+                    j = rng.below(i + 1)
+                    perm[i], perm[j] = perm[j], perm[i]
+                combos.append((comb, outcomes, perm))
+    for comb, outcomes, perm in combos:
+        n = len(outcomes)
+        host = []
+        for i in range(n):
+            host += [{"fulfil": [[i + 1, {"promise": i + 1, "linked": True}]]}, {"step": 1}]
+        for k in perm:
+            host += [{"resolve" if outcomes[k][0] else "reject": [k + 1, outcomes[k][1]]}, {"step": 1}]
+        host += [{"step": 1}]
+        cases.append(("combinator", {"combinator": comb, "outcomes": outcomes, "settling_order": perm}, comb_prog(comb, n), host,
+                      (settle_expect(comb, outcomes, perm),)))
+    if chk.replay:
+        r = json.load(open(chk.replay))
+        cases = [(r["stream_e"], r["case"], r["program"], r["host"], tuple(r["expect"]))]
+    d = os.path.join(common.OUT, PID)
+    os.makedirs(d, exist_ok=True)
+    rf, of = os.path.join(d, "e_req.jsonl"), os.path.join(d, "e_res.jsonl")
+    with open(rf, "w") as f:
+        for kind, descr, src, host, exp in cases:
+            f.write(json.dumps({"program": src, "host": host}) + "\n")
+    rc, out = common.sh([chk.th, "orders", rf, of], timeout=1800)
+    if rc != 0:
+        chk.violation({"what": "orders harness died on the delivery stream rc=%s" % rc, "tail": out[-300:]})
+        return
+    impl = [json.loads(l) for l in open(of) if l.strip()]
+    os.remove(rf)
+    os.remove(of)
+    for (kind, descr, src, host, exp), res in zip(cases, impl):
+        stats["delivery_cases"] = stats.get("delivery_cases", 0) + 1
+        tr = res.get("trace", [])
+        final = [t for t in tr if t.get("r") == "complete"]
+        val = final[0].get("json") if final else None
+        ok = isinstance(val, str) and all(x in val for x in exp) and (kind != "combinator" or val == exp[0])
+        if ok:
+            continue
+        kc = None
+        if kind == "combinator" and descr["combinator"] == "any":
+            kc = "P1-promise-any-over-pending-never-settles"
+        if kind == "combinator" and descr["combinator"] == "allSettled":
+            kc = "P2-promise-allSettled-snapshots-pending"
+        if kc and any(e["class"] == kc for e in chk.known):
+            known_hit.add(kc)
+            continue
+        stats["disagreements"] += 1
+        if len(chk.violations) < 8:
+            chk.violation({"stream_e": kind, "case": descr, "program": src, "host": host, "expect": list(exp),
+                           "observed": [t.get("r") + (":" + str(t.get("json") or t.get("class") or "")) for t in tr],
+                           "what": ("an error response did not arrive in the program as a catchable exception / a value did not arrive"
+                                    if kind == "delivery" else "a combinator over host promises did not settle as ECMAScript specifies")})
+
 # ---- the property's statements on a trace (oracle) -----------------------------
 def trace_oracle(prog, acts, trace, known):
     """returns None or a description of the violated statement. `known` collects known-finding classes hit."""
@@ -224,7 +492,8 @@ def run(chk):
         "marker, cancel, getOrderId, try/catch around an await); promise combinators over host promises are tied by the trace oracle only",
         "the host drives step() until a non-Continue result between actions",
     ]
-    chk.prove(["theories/Host/LedgerProperties.vo"], ["theories/Host/LedgerProperties.v"])
+    chk.prove(["theories/Host/LedgerProperties.vo", "theories/Host/RaceProperties.vo"],
+              ["theories/Host/LedgerProperties.v", "theories/Host/RaceProperties.v"])
     ok, out, chk.th = common.build_harness("debug")
     if not ok:
         chk.proof_breaks.append("harness does not build against /repo: " + out[-800:])
@@ -235,6 +504,12 @@ def run(chk):
     rng = common.Rng(chk.seed, PID)
     stats = {"cases": 0, "disagreements": 0, "fault_cases": 0, "obs": 0}
     cases = []
+    if chk.replay and "race_entries" in json.load(open(chk.replay)):
+        race_stream(chk, rng, stats)
+        return chk.finish()
+    if chk.replay and "stream_e" in json.load(open(chk.replay)):
+        delivery_stream(chk, rng, stats, set())
+        return chk.finish()
     if chk.replay:
         r = json.load(open(chk.replay))
         cases = [([tuple(e) for e in r["program_events"]], [a if a == "S" else [tuple(x) for x in a] for a in r["host_actions"]])]
@@ -313,6 +588,9 @@ def run(chk):
             if stats["disagreements"] <= 4:
                 chk.proof_breaks.append("correspondence Host.Ledger vs Interpreter on program %s host %s: impl %s model %s"
                                         % (enc_prog(prog), enc_acts(acts), got, m))
+    if not chk.replay:
+        race_stream(chk, rng, stats)
+        delivery_stream(chk, rng, stats, known_hit)
     # known findings: replay their witnesses
     w1 = show_impl(impl[0]["trace"]) if impl and "trace" in impl[0] else ""
     w2 = show_impl(impl[1]["trace"]) if len(impl) > 1 and "trace" in impl[1] else ""
@@ -338,6 +616,6 @@ def run(chk):
         "rule": "(program, host script) pairs: corpus, exhaustive programs up to %d events over 7 event kinds x 4 canonical hosts, and PRNG-drawn "
                 "programs (<=6 orders) x hosts (subsets, batching, extra steps; every third with unknown/duplicate ids and errors); "
                 "the full StepResult trace is compared with the extracted model" % (3 if chk.tier == "quick" else 4),
-        "exhaustive": True, "cases": stats["cases"], "observations": stats["obs"], "disagreements": stats["disagreements"],
+        "exhaustive": True, "race_cases": stats.get("race_cases", 0), "delivery_and_combinator_cases": stats.get("delivery_cases", 0), "cases": stats["cases"], "observations": stats["obs"], "disagreements": stats["disagreements"],
     })
     return chk.finish()
